@@ -113,3 +113,27 @@ fn c10_norm_fixed_1() {
     kani::cover!(v > 0 && neg);
     kani::cover!(v == 0);
 }
+
+// ---------------------------------------------------------------- call-site of the iteration count (cut-point slice of `divsteps`)
+//@@ extract file=modular/safegcd.rs from="    let mut i = 0;\n" to="    while i < m {" sig="pub(super) fn __verif_divsteps_count<const LIMBS: usize>(f_0: UnsatInt<LIMBS>, g: UnsatInt<LIMBS>) -> usize" ret="m"
+
+//@ prop=C10 tier=quick profile=k64 funcs="safegcd::divsteps (slice: the statements between `let mut i = 0;` and the `while i < m` loop),safegcd::iterations,UnsatInt::bits" bound="UnsatInt<3>: every pair of non-negative well-formed f_0, g: the loop bound m computed by divsteps is at least the Bernstein-Yang count for max(bits(f_0), bits(g)) (c10_iterations_bound decides that count); the divstep loop body itself is not decided" free_bits=372 assumes="cut point: f_0, g well-formed (limbs < 2^62) and non-negative, as produced by UnsatInt::from_uint"
+#[kani::proof]
+#[kani::unwind(8)]
+fn c10_divsteps_count_covers_both_operands() {
+    let f = UnsatInt::<3>([kani::any(), kani::any(), kani::any()]);
+    let g = UnsatInt::<3>([kani::any(), kani::any(), kani::any()]);
+    let mut i = 0;
+    while i < 3 {
+        kani::assume(f.0[i] <= M && g.0[i] <= M);
+        i += 1;
+    }
+    kani::assume(f.0[2] >> 61 == 0 && g.0[2] >> 61 == 0);
+    let m = super::__verif_divsteps_count(f, g) as u64;
+    let (fb, gb) = (f.bits(), g.bits());
+    let d = if fb > gb { fb } else { gb } as u64;
+    let num = 49 * d + if d < 46 { 80 } else { 57 };
+    assert!(17 * (m + 1) > num); // m >= floor(num / 17)
+    kani::cover!(gb > fb && fb > 62);
+    kani::cover!(fb > gb && gb == 0);
+}
